@@ -9,6 +9,7 @@ package seqhash
 // verif:bound C05 separation clause: two inputs of equal length 1..3 (quick) / 1..4 (thorough) over ACGT, and 1..2 / 1..3 over the 15 IUPAC codes, same flags; different flags and different lengths give different tags / digests
 // verif:bound C05 rejection clause: type strings of 3..7 symbolic letters; one symbolic byte outside the alphabet at every position of a sequence of length 1..3 (quick) / 1..4 (thorough); double-stranded proteins
 // verif:assume C05 BLAKE3 is an uninterpreted function per input length and assumed collision-free: digests are equal iff the hashed strings are equal, digests of strings of different length differ. That the digest IS BLAKE3-256 is outside the claim (checked natively on pinned vectors only)
+// verif:bound C05 reject-after-accept clause: 1..2 symbolic protein letters hashed as PROTEIN, then offered as DNA / RNA in the same process: rejected iff a letter lies outside the nucleic-acid alphabet
 // verif:bound C05 outside the claim: U and Z under DNA in the separation clause (reverse complement is not an involution there)
 
 import (
@@ -195,6 +196,31 @@ func Harness_C05_RejectLetter() {
 	h, err := Hash(s, c04Type(ti), vChoice(2) == 1, false)
 	vAssert(err != nil, "foreign-letter-rejected")
 	vAssert(h == "", "no-hash-on-error")
+}
+
+// a sequence accepted under one declared type is still checked against the alphabet of another
+func Harness_C05_RejectAfterAccept() {
+	n := 1 + vChoice(2)
+	s := vBytes(n, "ACDEFGHIKLMNPQRSTVWYUO*BXZ")
+	circ := vChoice(2) == 1
+	_, e1 := Hash(s, "PROTEIN", circ, false)
+	vAssert(e1 == nil, "accepted")
+	ti := vChoice(2)
+	nuc := "ATUGCYRSWKMBDHVNZ"
+	allIn := vAnd()
+	for i := 0; i < n; i++ {
+		in := vOr()
+		for j := 0; j < len(nuc); j++ {
+			in = vOr(in, s[i] == nuc[j])
+		}
+		allIn = vAnd(allIn, in)
+	}
+	h, e2 := Hash(s, c04Type(ti), circ, false)
+	vAssert(vIff(e2 != nil, vNot(allIn)), "foreign-letter-rejected-after-acceptance-under-another-type")
+	if e2 != nil {
+		vAssert(h == "", "no-hash-on-error")
+	}
+	vCover("C05 a protein-only letter offered as DNA", vNot(allIn))
 }
 
 func Harness_C05_RejectDoubleStrandedProtein() {
